@@ -12,6 +12,7 @@ CONSTANTS
   StartCtr = 0
 INVARIANT UniqueWhileBounded
 INVARIANT NoReissue
+INVARIANT IssuedIsSequence
 INVARIANT CreationInForce
 INVARIANT RefUnique
 INVARIANT SerialAdvancesOnWrap
